@@ -364,6 +364,8 @@ class BusCookieAuthenticator :
 
     def _step_two(self, response):
         self._delete_cookie()
+        # the cookie is gone: a later cancel() must not delete it again
+        self.cookieId = None
         hash_str = None
         shash = 1
         try:
